@@ -183,7 +183,14 @@ theorem lsim_step (a : LArch) (t : LTrack) (op : LArchOp) (h : LSim a t) :
           refine ⟨_, rfl, c ++ [(p, ms.map .name)], shape_fill hsh _ hne, ?_⟩
           simp [idsOf, Function.comp_def, Filter.id]
         · simp
-      · simp
+      · -- the empty module list: nothing is supplied, the layer stays open and the state is unchanged
+        have hnil : ms = [] := by simpa using hms
+        subst hnil
+        simp only [if_true]
+        refine ⟨a, ?_, c, hsh, rfl⟩
+        rw [step_modules_open hsh []]
+        simp only [List.any_nil, Bool.false_eq_true, if_false, List.map_nil]
+        rw [hsh.eq]; rfl
   | matching r =>
     simp only [toLCall, LTrack.step]
     cases opened with
